@@ -468,9 +468,13 @@ PROPS["C03"]["harnesses"].append({"name": "walletfaultpass", "pkg": "harness/wal
 PROPS["C05"]["harnesses"].append({"name": "walletfaultkeys", "pkg": "harness/wallet", "driver": "MassVerif/Driver/Wallet.lean",
                                   "quick": {"n": 0, "len": 3, "focus": "C05F"}, "thorough": {"n": 6, "len": 5, "focus": "C05F"},
                                   "search": {"n": 2, "len": 4, "focus": "C05F"}, "timeout": 3000})
+# C02 too: with a storage error in the way the reopened wallet still presents exactly what was acknowledged (public-passphrase changes)
+PROPS["C02"]["harnesses"].append({"name": "walletfaultpub", "pkg": "harness/wallet", "driver": "MassVerif/Driver/Wallet.lean",
+                                  "quick": {"n": 0, "len": 3, "focus": "C02F"}, "thorough": {"n": 4, "len": 5, "focus": "C02F"},
+                                  "search": {"n": 2, "len": 4, "focus": "C02F"}, "timeout": 3000})
 # C06 too: after a key request that failed on a storage fault the next request continues the ordinals without a gap
 PROPS["C06"]["harnesses"].append({"name": "walletfaultkeys", "pkg": "harness/wallet", "driver": "MassVerif/Driver/Wallet.lean",
-                                  "quick": {"n": 0, "len": 3, "focus": "C05F"}, "thorough": {"n": 6, "len": 5, "focus": "C05F"},
+                                  "quick": {"n": 0, "len": 3, "focus": "C06F"}, "thorough": {"n": 6, "len": 5, "focus": "C05F"},
                                   "search": {"n": 2, "len": 4, "focus": "C05F"}, "timeout": 3000})
 # collector side of C17: what a LocalCollector reports for a qualities task
 PROPS["C17"]["props"].append("MassVerif.Props.C17Collector")
